@@ -291,9 +291,17 @@ class Integer(Decimal):
 
     @staticmethod
     def validate_native(cls, value):
-        return (    Decimal.validate_native(cls, value)
-                and (value is None or int(value) == value)
-            )
+        if not Decimal.validate_native(cls, value):
+            return False
+
+        if value is None:
+            return True
+
+        try:
+            return int(value) == value
+        except (OverflowError, ValueError):
+            # int() of an infinity or a nan
+            return False
 
 
 class UnsignedInteger(Integer):
